@@ -1,4 +1,5 @@
 import TarpcModel.Wire.ErrorKind
+import TarpcModel.Gen.Flags
 /-!
 # tarpc's protocol types under `tokio_serde::formats::Bincode` (= bincode 1.3 `DefaultOptions`)
 
@@ -191,7 +192,16 @@ def readClientMessage (bs : Bytes) : Outcome (ClientMessage T) :=
       | some (d, _) => instantAddPanics d
       | none => false
     | _ => false
-  if early then .panic
+  if early then
+    -- the deadline does not fit an `Instant`: the code either panics (as first found) or saturates to
+    -- a deadline `Gen.deadlineFarFutureSecs` away (after the fix); which one is read off the source
+    if Gen.deadlineSaturates then
+      match decodeClientMessage decT bs with
+      | some (.request r) =>
+          .value (.request { r with context := { r.context with deadline := ⟨Gen.deadlineFarFutureSecs, 0⟩ } })
+      | some m => .value m
+      | none => .error
+    else .panic
   else match decodeClientMessage decT bs with
     | some m => .value m
     | none => .error
